@@ -4,7 +4,7 @@
 delete the copy, and record which check caught it.
 
 usage: tools/mut.py [--tier quick] [--only ID[,ID]] [--jobs N]
-Catalogue: mutants/catalog.json  [{id, file, old, new, props, note}]
+Catalogue: mutants/c*.json  [{id, file, old, new, props, note}]
 Results:   mutants/results.json
 """
 
@@ -43,10 +43,9 @@ def run_one(m, tier, seed):
                 'jobs', 8)))
             t0 = time.time()
             cmd = [os.path.join(VERIF, 'check'), prop, '--tier', tier,
-                   '--seed', str(seed), '--family', '*noevidence*'] \
-                if False else [os.path.join(VERIF, 'check'), prop, '--tier',
-                               tier, '--seed', str(seed)]
+                   '--seed', str(seed)]
             env['VERIF_NO_EVIDENCE'] = '1'
+            env['VERIF_REPLAY_DIR'] = '/var/tmp/mut-replays'
             p = subprocess.run(cmd, env=env, capture_output=True, text=True)
             viol = [l for l in p.stdout.splitlines()
                     if l.startswith('VIOLATION')]
@@ -71,7 +70,10 @@ def main():
     ap.add_argument('--prop')
     ap.add_argument('--jobs', type=int, default=2)
     args = ap.parse_args()
-    cat = json.load(open(os.path.join(VERIF, 'mutants', 'catalog.json')))
+    import glob
+    cat = []
+    for f in sorted(glob.glob(os.path.join(VERIF, 'mutants', 'c[0-9]*.json'))):
+        cat.extend(json.load(open(f)))
 
     if args.only:
         ids = args.only.split(',')
